@@ -371,6 +371,19 @@ def p4(ctx):
 
 
 # ---------------------------------------------------------------------- P3
+JSON_TEXT_DEFAULTS = {'ensure_ascii': (True,), 'indent': (None,), 'separators': (None, (', ', ': ')),
+                      'sort_keys': (False,), 'cls': (None,)}
+
+
+def _plain(v):
+    """Python value of a constant or a tuple display of constants; a unique object otherwise."""
+    if v.is_const:
+        return v.val
+    if v.k == 'tuple' and all(x.is_const for x in v.a[0]):
+        return tuple(x.val for x in v.a[0])
+    return object()
+
+
 def format_facts(ctx):
     """The released on-disk format as values folded from the source."""
     it = Interp(ctx.prog)
@@ -525,12 +538,23 @@ def format_facts(ctx):
     j = ctx.prog.classes.get('JSONDisk')
     if j is not None:
         names = set()
+        form = set()
         for m in j.methods.values():
             for p in ctx.paths(m, 'plain'):
                 for e in p.trace:
                     if e.kind == 'EXT' and e.d['name'].split('.')[0] in ('json', 'zlib'):
                         names.add(e.d['name'])
+                    # the JSON text IS the database key (compared as bytes): options that change the text of the same
+                    # object make every composite key written by the released version unfindable
+                    if e.kind == 'EXT' and e.d['name'] in ('json.dumps', 'json.dump'):
+                        for k, v in sorted(e.d['kwargs'].items()):
+                            dflt = JSON_TEXT_DEFAULTS.get(k, ())
+                            if k in JSON_TEXT_DEFAULTS and _plain(v) not in dflt:
+                                form.add('%s.%s' % (m.name, k))
+                        if len(e.d['args']) > 1:
+                            form.add('%s.positional-options' % m.name)
         facts['jsondisk'] = sorted(names)
+        facts['jsondisk_text_options'] = sorted(form)
     # text codec of value files
     from .rules_codec import _store_paths, _open_events, _open_recipe, _codec_name
     from .rules_file import _mode_name
